@@ -444,6 +444,7 @@ def build(spec, variant=None):
         return _build(spec, variant)
     finally:
         AT.ARR[0] = None
+        AT.ARRI[0] = None
 
 
 def _build(spec, variant=None):
@@ -465,6 +466,15 @@ def _build(spec, variant=None):
         return a
 
     AT.ARR[0] = arr
+
+    def arri(a):
+        a = np.array(a)
+        a.flags.writeable = False
+        B.arrays.append(a)
+        B.digests.append(_digest(a))
+        return a
+
+    AT.ARRI[0] = arri
 
     xs = [m.dvar(b['n'], b['vtype']) for b in spec['blocks']]
     B.xs = xs
